@@ -13,17 +13,158 @@
 //! instance's overwrite) reading, or copying and then reading the target;
 //! a fresh instance that copies / renames the touched keys and reads the
 //! targets (default and strict mode).
+//!
+//! Two enumerations run before the site sweep: every ORDER (and subset) of
+//! the builder's option methods, from both constructors, against a battery
+//! that discriminates each option (`vstore::config`); and a key universe
+//! that is adversarial for string handling (same characters with the `/`
+//! elsewhere, prefixes, case variants, percent-encoded segments), same-size
+//! objects, every cross-key transplant of metadata / payload / both between
+//! every ordered pair of keys (`tamper::build_universe`).
 
 use serde_json::json;
 use std::collections::{BTreeMap, HashSet};
 use vcore::{Run, Tier, Violation, util};
+use vstore::config::{self, Ctor, Opt};
 use vstore::tamper::{
-    Read, Reader, Scenario, Tamper, WRITERS, Writer, apply_tamper, build_scenario, check_content, check_content_stale,
-    check_content_stale_copy, check_content_via_copy, looks_legacy, sites, sizes, stale_applicable,
+    Read, Reader, Scenario, Tamper, WRITERS, Writer, apply_tamper, build_scenario, build_universe, check_content, check_content_stale,
+    check_content_stale_copy, check_content_via_copy, cross_key_sites, looks_legacy, looks_legacy_lenient, sites, sizes, stale_applicable,
 };
 
 fn scenario_label(sc: &Scenario) -> String {
-    format!("{}-byte object written by {:?}", sc.size, sc.writer)
+    if is_universe(sc) {
+        format!("{} keys with colliding names, a {}-byte object each, written by {:?}", sc.original.len(), sc.size, sc.writer)
+    } else {
+        format!("{}-byte object written by {:?}", sc.size, sc.writer)
+    }
+}
+
+/// The adversarial key universe has no replaced older generation.
+fn is_universe(sc: &Scenario) -> bool {
+    sc.old_gen_path.is_empty()
+}
+
+// ---------------------------------------------------------------------------
+// builder call orders
+
+fn seq_text(ctor: Ctor, seq: &[Opt]) -> String {
+    let mut s = match ctor {
+        Ctor::WithSecret => "EncryptedStoreBuilder::with_secret(..)".to_string(),
+        Ctor::New => "EncryptedStoreBuilder::new(.., cipher)".to_string(),
+    };
+    for o in seq {
+        s.push_str(&match o {
+            Opt::ChunkSize(n) => format!(".with_chunk_size({n})"),
+            Opt::Strict => ".with_strict_metadata_auth()".into(),
+            Opt::ConditionalPut => ".with_conditional_put()".into(),
+            Opt::MetaCache => ".with_meta_cache(cache)".into(),
+            Opt::MetaCacheTtlZero => ".with_meta_cache_ttl(0 s)".into(),
+            Opt::MetaCacheTtlHour => ".with_meta_cache_ttl(1 h)".into(),
+        });
+    }
+    s + ".build()"
+}
+
+/// One (constructor, call sequence): battery against the effective
+/// configuration, then against the canonical order's observations.
+fn builder_case(w: &config::World, ctor: Ctor, seq: &[Opt], canon: Option<&Vec<config::Obs>>) -> (Vec<Violation>, usize, Option<Vec<config::Obs>>) {
+    let r = std::panic::catch_unwind(std::panic::AssertUnwindSafe(|| config::run_sequence(w, ctor, seq)));
+    let Ok((obs, devs)) = r else {
+        return (vec![], 0, None);
+    };
+    let replay = json!({"builder": {"ctor": ctor, "seq": seq}});
+    let mut out: Vec<Violation> = devs
+        .into_iter()
+        .map(|d| Violation {
+            signature: format!("C09/tamper/builder-order/{}/{}", d.option, d.probe),
+            summary: format!("{}: {}", seq_text(ctor, seq), d.text),
+            replay: replay.clone(),
+        })
+        .collect();
+    if let Some(c) = canon
+        && let Some((a, b)) = obs.iter().zip(c.iter()).find(|(a, b)| a != b)
+    {
+        let eff = config::effective(seq);
+        out.push(Violation {
+            signature: format!("C09/tamper/builder-order/differs-from-canonical-order/{}", a.probe),
+            summary: format!(
+                "{} observes `{}` = {}; the same options in canonical order, {}, observe {}",
+                seq_text(ctor, seq),
+                a.probe,
+                a.value,
+                seq_text(ctor, &config::canonical(&eff)),
+                b.value
+            ),
+            replay,
+        });
+    }
+    let n = obs.len();
+    (out, n, Some(obs))
+}
+
+fn builder_order_phase(run: &mut Run) {
+    let w = config::build_world();
+    let toks = config::tokens(run.tier == Tier::Thorough);
+    let seqs = config::sequences(&toks);
+    let threads = util::n_threads();
+    // observations of the canonical order of every effective configuration
+    let mut effs: Vec<(Ctor, config::Effective)> = Vec::new();
+    for ctor in [Ctor::WithSecret, Ctor::New] {
+        for s in &seqs {
+            effs.push((ctor, config::effective(s)));
+        }
+    }
+    effs.sort();
+    effs.dedup();
+    let canon_obs: Vec<Option<Vec<config::Obs>>> = util::par_map(effs.clone(), threads, |(ctor, eff)| builder_case(&w, ctor, &config::canonical(&eff), None).2);
+    let canon: BTreeMap<(Ctor, config::Effective), Vec<config::Obs>> =
+        effs.iter().cloned().zip(canon_obs).filter_map(|(k, o)| o.map(|o| (k, o))).collect();
+    let mut work: Vec<(Ctor, Vec<Opt>)> = Vec::new();
+    for ctor in [Ctor::WithSecret, Ctor::New] {
+        for s in &seqs {
+            work.push((ctor, s.clone()));
+        }
+    }
+    run.set("builder_call_sequences", json!(work.len()));
+    run.set("builder_effective_configurations", json!(effs.len()));
+    let mut done = 0usize;
+    let total = work.len();
+    for batch in work.chunks(8192) {
+        if !run.in_budget() {
+            run.cap_hit(&format!("time budget: stopped after {done}/{total} builder call sequences"));
+            break;
+        }
+        let results = util::par_map(batch.to_vec(), threads, |(ctor, seq)| {
+            let eff = config::effective(&seq);
+            builder_case(&w, ctor, &seq, canon.get(&(ctor, eff)))
+        });
+        for ((ctor, seq), (viol, n_obs, obs)) in batch.iter().zip(results) {
+            done += 1;
+            run.add("evaluations", n_obs as u64);
+            run.add("builder_observations", n_obs as u64);
+            if obs.is_none() {
+                run.add("builder_sequences_that_panicked", 1);
+                continue;
+            }
+            run.add("builder_sequences_checked", 1);
+            if !seq.is_empty() {
+                run.distinct(util::fnv64(format!("builder|{ctor:?}|{seq:?}").as_bytes()));
+            }
+            if done == 4 || done == 1500 {
+                let obs = obs.unwrap();
+                run.sample(json!({
+                    "builder_calls": seq_text(*ctor, seq),
+                    "effective_configuration": format!("{:?}", config::effective(seq)),
+                    "observations": obs.len(),
+                    "first_observations": obs.iter().take(4).map(|o| format!("{} = {}", o.probe, o.value)).collect::<Vec<_>>(),
+                    "deviations": viol.len(),
+                }));
+            }
+            for v in viol {
+                run.violation(v);
+            }
+        }
+    }
 }
 
 #[derive(Default)]
@@ -92,22 +233,28 @@ fn check_site(sc: &Scenario, baseline_failed: &HashSet<Read>, t: &Tamper, strict
     // metadata (none of an / at / av / g present) is accepted by a default-
     // mode store by design; name that shape in the signature
     let legacy_look = !matches!(t, Tamper::Compound { .. })
-        && touched.iter().any(|k| content.get(&format!("meta/{k}")).map(|d| looks_legacy(d)).unwrap_or(false));
+        && touched.iter().any(|k| content.get(&format!("meta/{k}")).map(|d| looks_legacy(d) || looks_legacy_lenient(d)).unwrap_or(false));
     let compound_legacy = matches!(t, Tamper::Compound { strip, .. } if vstore::tamper::LEGACY_LOOK.iter().all(|f| strip.iter().any(|s| s == f)));
     for (rd, field, why) in out.wrong {
-        // One root cause, three shapes: a default-mode store accepts a
+        // One root cause, four shapes: a default-mode store accepts a
         // document without an / at / av / g as legacy metadata (documented
         // downgrade window, closed by strict mode). Then (1) last_modified
         // falls back to the backend object's timestamp, (2) size is whatever
         // the document says, (3) with size 0 and any object at data/<loc> a
-        // full get answers an empty body. Non-empty wrong BYTES would be a
-        // different matter and keep their own signature.
+        // full get answers an empty body, (4) the token e is whatever the
+        // document says (reached by luck through a bit flip in the length
+        // header of `e`, deterministically by the strip+retag edit).
+        // Non-empty wrong BYTES would be a different matter and keep their
+        // own signature.
         let empty_body = field == "size" && matches!(rd, Read::Get { .. }) && why.starts_with("get reports size 0,");
-        let signature = if !strict && (legacy_look || compound_legacy) && field != "bytes" && field != "key" && field != "e_tag" {
+        let signature = if !strict && (legacy_look || compound_legacy) && field != "bytes" && field != "key" {
             format!(
                 "C09/tamper/legacy-look-accepted/{}",
                 if field == "last_modified" {
                     "last_modified"
+                } else if field == "e_tag" {
+                    // (4) the token is whatever the unauthenticated document says
+                    "e_tag"
                 } else if empty_body {
                     "empty-object"
                 } else {
@@ -137,7 +284,7 @@ fn check_site(sc: &Scenario, baseline_failed: &HashSet<Read>, t: &Tamper, strict
                 serde_json::to_string(&rd).unwrap_or_default(),
                 why
             ),
-            replay: json!({"size": sc.size, "writer": sc.writer, "tamper": t, "strict": strict, "reader": reader}),
+            replay: json!({"size": sc.size, "writer": sc.writer, "tamper": t, "strict": strict, "reader": reader, "universe": is_universe(sc)}),
         });
     }
     r
@@ -155,12 +302,31 @@ fn main() {
     if let Some(file) = run.replay_file.clone() {
         let doc: serde_json::Value = serde_json::from_slice(&std::fs::read(&file).expect("read replay")).expect("json");
         let r = &doc["replay"];
+        if let Some(b) = r.get("builder") {
+            let ctor: Ctor = serde_json::from_value(b["ctor"].clone()).expect("ctor");
+            let seq: Vec<Opt> = serde_json::from_value(b["seq"].clone()).expect("seq");
+            let w = config::build_world();
+            let eff = config::effective(&seq);
+            println!("replaying {} (effective configuration {eff:?})", seq_text(ctor, &seq));
+            let canon = builder_case(&w, ctor, &config::canonical(&eff), None).2;
+            let (viol, n, obs) = builder_case(&w, ctor, &seq, canon.as_ref());
+            run.add("evaluations", n as u64);
+            for o in obs.unwrap_or_default() {
+                println!("  {} = {}", o.probe, o.value);
+            }
+            for v in viol {
+                println!("  -> {}", v.summary);
+                run.violation(v);
+            }
+            run.finish();
+        }
         let size = r["size"].as_u64().expect("size") as usize;
         let writer: Writer = serde_json::from_value(r["writer"].clone()).expect("writer");
         let t: Tamper = serde_json::from_value(r["tamper"].clone()).expect("tamper");
         let strict = r["strict"].as_bool().unwrap_or(false);
         let reader: Reader = r.get("reader").cloned().and_then(|v| serde_json::from_value(v).ok()).unwrap_or(Reader::Fresh);
-        let sc = util::block_on(build_scenario(size, writer));
+        let universe = r.get("universe").and_then(|u| u.as_bool()).unwrap_or(false);
+        let sc = if universe { util::block_on(build_universe(size, writer)) } else { util::block_on(build_scenario(size, writer)) };
         println!("replaying {} on {}", serde_json::to_string(&t).unwrap(), scenario_label(&sc));
         let base = baseline(&sc, strict);
         for (rd, _, why) in &base.wrong {
@@ -182,6 +348,49 @@ fn main() {
         run.finish();
     }
 
+    // development aid (not a tier): VERIF_C09_REFRAME_STRESS=<n> rebuilds every
+    // scenario n times (fresh random nonces, tokens, generation salts each
+    // time) and applies every bit flip of every METADATA document, default
+    // mode, fresh reader: prints how many flips drew an answer other than
+    // original-or-error, by signature. Shows which verdict signatures the
+    // run-random bytes can reach.
+    if let Ok(n) = std::env::var("VERIF_C09_REFRAME_STRESS") {
+        let rounds: usize = n.parse().expect("VERIF_C09_REFRAME_STRESS=<rounds>");
+        let bits: Vec<u8> = (0..8).collect();
+        let mut by_sig: BTreeMap<String, (u64, String)> = BTreeMap::new();
+        let (mut flips, mut docs) = (0u64, 0u64);
+        for round in 0..rounds {
+            let mut work: Vec<(usize, Tamper)> = Vec::new();
+            let mut scs = Vec::new();
+            for s in sizes() {
+                for w in WRITERS {
+                    scs.push(util::block_on(build_scenario(s, w)));
+                }
+            }
+            for (i, sc) in scs.iter().enumerate() {
+                docs += sc.sym.keys().filter(|p| p.starts_with("meta/")).count() as u64;
+                for t in sites(sc, &bits) {
+                    if matches!(&t, Tamper::Flip { path, .. } if path.starts_with("meta/")) {
+                        work.push((i, t));
+                    }
+                }
+            }
+            flips += work.len() as u64;
+            let none = HashSet::new();
+            let res = util::par_map(work, util::n_threads(), |(i, t)| check_site(&scs[i], &none, &t, false, Reader::Fresh).wrong);
+            for v in res.into_iter().flatten() {
+                let e = by_sig.entry(v.signature.clone()).or_insert((0, v.summary.clone()));
+                e.0 += 1;
+            }
+            eprintln!("round {}/{rounds}: {flips} flips of {docs} freshly written documents so far", round + 1);
+        }
+        println!("re-framing stress: {flips} single-bit flips over {docs} freshly written metadata documents");
+        for (sig, (n, first)) in &by_sig {
+            println!("  {n:>8}  {sig}\n            e.g. {}", first.chars().take(260).collect::<String>());
+        }
+        std::process::exit(0);
+    }
+
     // all 8 bits of every byte in both tiers; thorough widens the size set
     let bits: Vec<u8> = (0..8).collect();
     let mut size_list = sizes();
@@ -189,7 +398,31 @@ fn main() {
         let cs = vstore::tamper::CS as usize;
         size_list.extend([2, cs + 2, 2 * cs, 2 * cs + 1, 3 * cs, 3 * cs + 1, 4 * cs + 5]);
     }
+    // option methods of the builder in every order (first: cheap, and never cut by the budget)
+    let t0 = std::time::Instant::now();
+    builder_order_phase(&mut run);
+    if std::env::var("VERIF_TIMING").is_ok() {
+        eprintln!("builder-order phase: {:.2?}", t0.elapsed());
+    }
+
     let mut scenarios: Vec<Scenario> = Vec::new();
+    // the adversarial key universe comes first for the same reason
+    let universe: Vec<(usize, Writer)> = match run.tier {
+        Tier::Quick => vec![(17, Writer::Put), (17, Writer::Multipart), (1, Writer::Put)],
+        Tier::Thorough => {
+            let mut v = Vec::new();
+            for s in [0usize, 1, 16, 17, 35] {
+                for w in [Writer::Put, Writer::Multipart, Writer::Rename] {
+                    v.push((s, w));
+                }
+            }
+            v
+        }
+    };
+    for (s, w) in universe {
+        scenarios.push(util::block_on(build_universe(s, w)));
+    }
+    run.set("key_universe", json!({"keys_as_the_caller_spells_them": vstore::tamper::UNIVERSE, "scenarios": scenarios.len()}));
     for s in &size_list {
         for w in WRITERS {
             scenarios.push(util::block_on(build_scenario(*s, w)));
@@ -204,9 +437,9 @@ fn main() {
         for strict in [false, true] {
             // the other readers on the untampered content
             let keys: Vec<String> = sc.original.keys().cloned().collect();
-            let stale = check_content_stale(sc, &sc.base, strict);
-            let mut others = vec![(Reader::Stale, stale)];
-            {
+            let mut others = Vec::new();
+            if !is_universe(sc) {
+                others.push((Reader::Stale, check_content_stale(sc, &sc.base, strict)));
                 let (out, _acc, refused) = check_content_stale_copy(sc, &sc.base, strict);
                 if refused > 0 {
                     vcore::report::machinery(&format!("{}: the stale-cache instance could not copy the untampered object", scenario_label(sc)));
@@ -267,6 +500,18 @@ fn main() {
     let wide = run.tier == Tier::Thorough;
     let mut work: Vec<(usize, Tamper, bool, Reader)> = Vec::new();
     for (i, sc) in scenarios.iter().enumerate() {
+        if is_universe(sc) {
+            // every cross-key transplant between every ordered pair of keys,
+            // default and strict mode, read directly and through copy / rename
+            for t in cross_key_sites(sc) {
+                for strict in [false, true] {
+                    for reader in [Reader::Fresh, Reader::Copy, Reader::Rename] {
+                        work.push((i, t.clone(), strict, reader));
+                    }
+                }
+            }
+            continue;
+        }
         for t in sites(sc, &bits) {
             let structured = matches!(t, Tamper::Cbor { .. } | Tamper::Compound { .. });
             let modes: &[bool] = if structured || t.is_probe() { &[true, false] } else { &[false] };
@@ -419,7 +664,9 @@ fn main() {
         }),
     );
     run.rule(
-        "objects = sizes x writers {put, multipart, copy, rename} at chunk size 16, keys a (two generations), a/b (same size, other bytes), c (copy source); \
+        "builder call orders = every sequence without repetition (every subset in every order) of the option calls {with_chunk_size(16), with_chunk_size(7), with_strict_metadata_auth, with_conditional_put, with_meta_cache(handle), with_meta_cache_ttl(0 s)} (thorough: + with_chunk_size(0), with_meta_cache_ttl(1 h)) from both constructors (with_secret, new): the built store runs a battery over a backend holding a genuine pre-authentication object (with and without recorded chunk size), a current object stripped to the legacy look with its ciphertext relocated, and a sealed object - get, 3 ranged gets, get_ranges, head, 3 listings, copy and rename of each; the stored layout (c, tag count, every chunk opened by the harness under the chunk AAD of the configured size) of a put and a multipart upload; Create / Update(latest) / Update(stale); which metadata cache serves - judged against the effective configuration computed by the harness from the documented meaning of the calls (last chunk size wins; strict once called; later of with_meta_cache / with_meta_cache_ttl wins): once with_strict_metadata_auth() was called EVERY read path refuses the three unauthenticated documents, any answer is the written bytes, the layout follows the configured chunk size; and the whole observation vector equals that of the canonical call order of the same effective configuration; \
+         key universe = 14 keys whose names collide under sloppy path handling (same characters with the `/` elsewhere: a/bc, ab/c, abc, a/b/c, col/1/23, col/12/3, col/123; prefixes / suffixes: a, ab, a/b; case variants A/bc, a/BC; percent-encoded segments a%2Fbc, a/b#c), each holding its own payload of the SAME size (quick: 17 bytes by put and by multipart, 1 byte by put; thorough sizes {0,1,16,17,35} x {put, multipart, rename}): for every ORDERED pair of keys the source's metadata document alone, its ciphertext alone, and document + ciphertext together are transplanted onto the target key; default and strict mode; read by a fresh instance and through copy / rename of the target; every read of every key answers that key's own bytes, size, e_tag and commit time, or fails; \
+         objects = sizes x writers {put, multipart, copy, rename} at chunk size 16, keys a (two generations), a/b (same size, other bytes), c (copy source); \
          sites = every bit of every byte, every truncation length, 4 extensions of every backend object; every chunk swap; every swap / one-way replacement between payload objects (keys and generations) and between metadata documents; \
          CBOR edits of every metadata document (remove / null each field, strip combinations of an, at, av, g, m, c, zero n / an / at / t[i], remove / swap / append tags, alter s, c, av, m, copy g, e, n, t, m, s, an, at and combinations from another key's document and from the older generation's; CBOR edits are read in default and in strict mode); \
          compound downgrade family per key: every subset of {av, an, at, g, m} stripped x legacy object data/<key> {absent, this key's ciphertext, another key's} x size {unchanged, every chunk boundary <= len, the other key's length}, default and strict mode; \
